@@ -169,9 +169,10 @@ def lsp_ranges(ctx):
         if not ss: continue
         for (fk, code, ds) in rng.sample(ss, min(len(ss), 4)):
             lines = units.print_file(ds, rng).split('\n')
-            for _ in range(rng.randint(2, 6)):
-                k = rng.randrange(len(lines))
-                lines[k] = f'(* {rng.choice(["é", "üß", "日本", "€", "é é"])} *) ' + lines[k]
+            for k in range(len(lines)):
+                # a non-ASCII comment before the tokens of about every second line: bytes, characters and UTF-16 units differ there
+                if lines[k].strip() and rng.random() < 0.5:
+                    lines[k] = f'(* {rng.choice(["é", "üß", "日本", "€", "é é", "😀"])} *) ' + lines[k]
             docs.append((fk, '\n'.join(lines)))
     hist = [[('open', 'f0', 1, t)] for fk, t in docs]
     sess = lspclient.sessions(hist, jobs=8)
